@@ -3,6 +3,7 @@
 package protodelim
 
 import (
+	"bufio"
 	"errors"
 	"io"
 
@@ -278,4 +279,46 @@ func H_C27_marshalto() {
 	calls, resets := 0, 0
 	err := UnmarshalFrom(rd, c27msg{got: &got, calls: &calls, resets: &resets})
 	nd.Assert(err == io.EOF, "io.EOF exactly at the clean boundary after the last message")
+}
+
+// H_C27_bufio: the bufio.Reader fast path (Peek/Discard, falling back to io.ReadFull when the
+// message does not fit the buffer): a real bufio.Reader with a 16-byte buffer over a stream holding
+// one message of size 0..20 (first/last body byte symbolic) truncated at every point, followed by
+// nothing: same verdicts as the generic path, the decoder sees exactly the body, and the next
+// call reports io.EOF exactly at the clean boundary.
+//
+//verif:props=C27 bounds=bufio.Reader(16-byte-buffer);message-size-0..20;every-truncation-point;underlying-reads-of-1-or-64-bytes maxsteps=8000000 ccap=80
+func H_C27_bufio() {
+	size := nd.Int(0, 20)
+	avail := nd.Int(0, size) // body bytes actually present
+	body := make([]byte, size)
+	if size > 0 {
+		body[0] = nd.Byte()
+		body[size-1] = nd.Byte()
+	}
+	stream := protowire.AppendVarint(nil, uint64(size))
+	stream = append(stream, body[:avail]...)
+	chunk := 64
+	if nd.Bool() {
+		chunk = 1
+	}
+	rd := bufio.NewReaderSize(&c27reader{data: stream, chunk: chunk}, 16)
+	var got []byte
+	calls, resets := 0, 0
+	m := c27msg{got: &got, calls: &calls, resets: &resets}
+	err := UnmarshalOptions{MaxSize: 64}.UnmarshalFrom(rd, m)
+	if avail < size {
+		nd.Reach("truncated body")
+		nd.Assert(err == io.ErrUnexpectedEOF, "stream truncated inside the body is io.ErrUnexpectedEOF")
+		nd.Assert(calls == 0, "truncated body is not decoded")
+		return
+	}
+	nd.Reach("complete message")
+	nd.Assert(err == nil, "complete message is accepted")
+	nd.Assert(calls == 1 && c27eq(got, body), "decoder received exactly the body bytes")
+	var got2 []byte
+	calls2, resets2 := 0, 0
+	err2 := UnmarshalOptions{MaxSize: 64}.UnmarshalFrom(rd, c27msg{got: &got2, calls: &calls2, resets: &resets2})
+	nd.Assert(err2 == io.EOF, "io.EOF exactly at the clean boundary after the message")
+	nd.Assert(calls2 == 0, "nothing decoded at end of stream")
 }
